@@ -60,6 +60,8 @@ func runP1Big(args []string) error {
 			nf, nv, lastVolOnly = 200, 56, true
 		case 14:
 			nf, nv = 4, 2 // siblings with temporary-file / backup suffixes (see below)
+		case 16, 18:
+			nf, nv = 3, 3 // files of more than 1 MiB (several passes of any windowed coder); a gap in the volume numbers
 		}
 		var names []string
 		prot := map[string][]byte{}
@@ -73,6 +75,9 @@ func runP1Big(args []string) error {
 				name = names[i-1] + []string{".tmp", "~", ".bak", ".new", ".part"}[rng.Intn(5)]
 			}
 			sz := []int{0, 1, 2, 7, 100, 1000, 5000, 16383, 16384, 16385, 20000 + rng.Intn(50000)}[rng.Intn(11)]
+			if idx == 16 || idx == 18 {
+				sz = [][]int{{1258291, 700000, 33}, {2097152, 1048576 + 5, 2097152}}[(idx-16)/2][i]
+			}
 			if nf > 12 && sz > 5000 {
 				sz = rng.Intn(3000)
 			}
@@ -189,6 +194,15 @@ func runP1Big(args []string) error {
 		} else if idx == 4 {
 			for v := 1; v <= nv; v++ {
 				vols = append(vols, v)
+			}
+		} else if idx == 16 || idx == 18 {
+			// the longest file is lost; volume 1 is gone while 2 and 3 survive (a gap below the volumes that have to be used)
+			disk[names[0]] = nil
+			dmg = []string{"delete " + names[0], "keep volumes 2 and 3"}
+			vols = []int{2, 3}
+			if idx == 18 {
+				disk[names[2]] = append([]byte{}, prot[names[2]][:len(prot[names[2]])-1]...)
+				dmg = append(dmg, "truncate "+names[2])
 			}
 		} else if idx == 14 {
 			// the base file is lost and must be restored while its siblings stay what they are
